@@ -255,6 +255,10 @@ theorem gen_pbcSetter_eq_model (value : List Int) : DvectSource.pbcSetter value 
 
 theorem gen_getters_live : DvectSource.systemGettersLive = true := rfl
 
+/-- the three modules consist of imports and exactly the translated functions, and `atomman/core/__init__.py` exports these
+    very functions (no wrapper, no rebinding). -/
+theorem gen_exports_direct : DvectSource.exportsDirect = true := rfl
+
 theorem gen_box_reference_default : DvectSource.boxReferenceDefault = "final" := rfl
 
 theorem zipWith_swap {α β γ : Type} (f : α → β → γ) (l0 : List α) (l1 : List β) :
